@@ -21,6 +21,7 @@ SMT_FAIL = (
     ('could not prove termination', 'decreases'),
     ('unable to prove assertion safety condition', 'assert'),
     ('assert_by_compute', 'assert'),
+    ('which evaluates to false', 'assert'),      # `assert(..) by (compute)` whose expression computes to false: a definite failure
     ('recommendation not met', 'recommends'),
     ('requires not satisfied', 'assert'),
     ('loop invariant', 'invariant'),
@@ -311,7 +312,7 @@ def run_unit(unit_name, repo='/repo', rlimit=None, twins=True, extra_args=(), ta
     elif res.n_errors > len(twin_failed) + len(twin_rlimit) + len(rlimit_fns):
         res.status, res.reason = 'undecided', 'verus reports %d errors but %d twin failures were classified' % (
             res.n_errors, len(twin_failed))
-    if res.n_verified == 0:
+    if res.n_verified == 0 and not res.failures:
         res.status, res.reason = 'undecided', 'zero functions verified'
     return res
 
